@@ -12,8 +12,8 @@ def c07(ctx: Ctx):
     ctx.assumptions = [
         "TLC; spec/RequestCheck.tla as the contract (security OR-of-ANDs with operation-over-document precedence, effective parameters, exclusion options, multi-error bijection)",
         "harness realiser harness/c07.go (documents built per case and loaded through the real loader; scripted AuthenticationFunc; errors projected to parts by type: SecurityRequirementsError / RequestError.Parameter / RequestError.RequestBody)",
-        "the accept set is given as a sequence in the case (TLC set -> JSON array); an authentication callback is always configured (the statement speaks of the callback's outcomes) except with a nil Options value, generated only where the security list in effect is empty",
-        "histories: an alias path item / an edit installs parts of a second document loaded through the real loader (openapi3.PathItem{Post: same *Operation, Parameters: loaded}); left open: behaviour with no callback configured and a non-empty list",
+        "the accept set is given as a sequence in the case (TLC set -> JSON array); an authentication callback is configured except in the no-callback focus (Options.AuthenticationFunc nil / Options nil), where no scheme can be accepted (accepts = {}) and nothing is called",
+        "histories: an alias path item / an edit installs parts of a second document loaded through the real loader (openapi3.PathItem{Post: same *Operation, Parameters: loaded})",
     ]
     cases = os.path.join(ctx.scratch, "cases.ndjson")
     if ctx.replay:
@@ -48,7 +48,7 @@ def c07(ctx: Ctx):
                 "operation-level kind and request text to <=2 of 3 (in,name) keys x security x body x MultiError/ExcludeRequestBody/ExcludeRequestQueryParams) "
                 "+ requiredness focus + location focus (path/cookie/header of one name) + $ref focus + scope focus (outcome per scheme+scopes) "
                 "+ body focus (declaration none/optional/required x carried none/empty/pass/fail/otherct/badjson x ExcludeRequestBody x security x unsized) "
-                "+ unmentioned options / nil Options + histories (second validation through an alias path item sharing the Operation value, a sibling "
+                "+ unmentioned options / nil Options + no-callback focus + histories (second validation through an alias path item sharing the Operation value, a sibling "
                 "operation, an in-place edit of parameters / security / requestBody, then the first route again; thorough: chains of two kinds); "
                 "every case distinct, every call of every history judged")
     ctx.validate("Trace_C07", "Trace_C07.cfg", logp, chunk_lines=2350 if ctx.tier == "quick" else 2500)
